@@ -10,7 +10,7 @@
 //!  * emits the same histories + the oracle tables as Coq files replayed by the model `Cache.v` under vm_compute;
 //!  * runtime support (not decided by proof): multi-thread stress on a shared state, `par_pure` vs `pure`.
 use feos::ResidualModel;
-use feos_core::{Contributions, Derivative, PhaseDiagram, ReferenceSystem, Residual, SolverOptions, State};
+use feos_core::{Contributions, Derivative, PhaseDiagram, PhaseEquilibrium, ReferenceSystem, Residual, SolverOptions, State};
 use feos_verif::configs::{self, Config, RState, Rng};
 use feos_verif::trace;
 use ndarray::Array1;
@@ -756,53 +756,116 @@ fn stress(c: &Config, rs: &RState, alpha: &[Rq], claims: &BTreeMap<String, Vec<(
 // ------------------------------------------------------------------------------------------------
 // runtime support: par_pure vs pure
 
-fn par_pure_runs(full: bool, rng: &mut Rng) -> Value {
+const CRIT: usize = 9999;
+
+/// index of the grid temperature a returned state belongs to (CRIT for the critical point, 7777 = none)
+fn grid_index(t: f64, grid: &[f64], tc: f64, last: bool) -> usize {
+    if last && rel_dev(t, tc) <= 1e-9 {
+        return CRIT;
+    }
+    let mut best = (7777usize, f64::INFINITY);
+    for (i, g) in grid.iter().enumerate() {
+        let d = rel_dev(t, *g);
+        if d < best.1 {
+            best = (i, d);
+        }
+    }
+    if best.1 <= 1e-9 {
+        best.0
+    } else {
+        7777
+    }
+}
+
+fn diagram_table(d: &PhaseDiagram<ResidualModel, 2>) -> Vec<[f64; 3]> {
+    d.states
+        .iter()
+        .map(|pe| [pe.vapor().temperature.to_reduced(), pe.vapor().density.to_reduced(), pe.liquid().density.to_reduced()])
+        .collect()
+}
+
+/// `par_pure` vs `pure` over (model, grid, threads, chunk size).  Grids: ordinary ranges where every temperature has a
+/// converged equilibrium AND ranges starting far below the triple-point region where the point solver fails for the
+/// first temperatures (those points are skipped by both variants).  Besides the state-by-state comparison the observed
+/// results are emitted for the Coq model `ParPure.v` (point solver = table of which grid temperatures converge from
+/// scratch), which must predict the list of returned states for every chunk size.
+fn par_pure_runs(full: bool, rng: &mut Rng, out_dir: &str, files: &mut Vec<Value>) -> Value {
     let all = configs::all(false);
-    let names: &[&str] = if full { &["pr1", "pcsaft_propane", "pcsaft_water", "pets1"] } else { &["pr1", "pcsaft_propane"] };
+    let names: &[&str] = if full { &["pr1", "pcsaft_propane", "pcsaft_water", "pets1", "gcpcsaft_propane"] } else { &["pr1", "pcsaft_propane", "pets1"] };
     let mut runs = 0usize;
     let mut states = 0usize;
+    let mut grids = 0usize;
+    let mut grids_with_failing_points = 0usize;
+    let mut failing_points = 0usize;
     let mut worst = 0.0f64;
     let mut worst_case = json!(null);
     let mut first_failure = json!(null);
     let mut failures: Vec<Value> = Vec::new();
     let mut samples: Vec<Value> = Vec::new();
     let threads: &[usize] = if full { &[1, 2, 3, 4, 8, 16] } else { &[1, 2, 4, 16] };
+    let options = SolverOptions::default();
     for name in names {
         let c = all.iter().find(|c| &c.name == name).unwrap();
         let eos = &c.model;
+        let sc = match State::critical_point(eos, None, None, SolverOptions::default()) {
+            Ok(s) => s,
+            Err(_) => continue,
+        };
+        let tc = sc.temperature.to_reduced();
+        // (npoints, lowest temperature as a fraction of Tc)
+        let mut plan: Vec<(usize, f64)> = Vec::new();
         let npts: Vec<usize> = if full { vec![2, 3, 4, 5, 7, 10, 17, 33, 64] } else { vec![2, 3, 5, 10, 17] };
         for &np in &npts {
-            let tmin = Temperature::from_reduced(c.t_scale * rng.range(0.55, 0.8));
-            let seq = match PhaseDiagram::pure(eos, tmin, np, None, SolverOptions::default()) {
+            plan.push((np, rng.range(0.55, 0.8)));
+        }
+        let low: Vec<usize> = if full { vec![3, 5, 8, 13, 21, 34] } else { vec![4, 9, 21] };
+        for &np in &low {
+            plan.push((np, rng.range(0.02, 0.12)));
+            plan.push((np, rng.range(0.12, 0.35)));
+        }
+        for (gi, &(np, frac)) in plan.iter().enumerate() {
+            let tmin = Temperature::from_reduced(tc * frac);
+            let seq = match PhaseDiagram::pure(eos, tmin, np, None, options) {
                 Ok(d) => d,
                 Err(_) => continue,
             };
-            let sv: Vec<[f64; 3]> = seq
-                .states
+            let sv = diagram_table(&seq);
+            // the grid exactly as par_pure builds it, and which of its points converge without an initial guess
+            let max_t = tmin + (sc.temperature - tmin) * ((np - 2) as f64 / (np - 1) as f64);
+            let grid: Vec<f64> = Array1::linspace(tmin.to_reduced(), max_t.to_reduced(), np - 1).to_vec();
+            let ok: Vec<bool> = grid
                 .iter()
-                .map(|pe| [pe.vapor().temperature.to_reduced(), pe.vapor().density.to_reduced(), pe.liquid().density.to_reduced()])
+                .map(|t| PhaseEquilibrium::pure(eos, Temperature::from_reduced(*t), None, options).is_ok())
                 .collect();
+            let nfail = ok.iter().filter(|b| !**b).count();
+            grids += 1;
+            failing_points += nfail;
+            if nfail > 0 {
+                grids_with_failing_points += 1;
+            }
+            let seq_idx: Vec<usize> = sv.iter().enumerate().map(|(i, x)| grid_index(x[0], &grid, tc, i + 1 == sv.len())).collect();
             let mut cs: Vec<usize> = vec![1, 2, 3, 5, np.max(1), np + 3];
             cs.push(1 + rng.below(np + 2));
             cs.sort();
             cs.dedup();
+            let mut cases_coq: Vec<String> = Vec::new();
+            let mut cases_json: Vec<Value> = Vec::new();
             for &nt in threads {
                 for &k in &cs {
                     runs += 1;
                     let pool = rayon::ThreadPoolBuilder::new().num_threads(nt).build().unwrap();
-                    let par = match PhaseDiagram::par_pure(eos, tmin, np, k, pool, None, SolverOptions::default()) {
+                    let par = match PhaseDiagram::par_pure(eos, tmin, np, k, pool, None, options) {
                         Ok(d) => d,
                         Err(e) => {
                             failures.push(json!({"config": name, "npoints": np, "chunksize": k, "threads": nt, "error": format!("{e}")}));
                             continue;
                         }
                     };
-                    let pv: Vec<[f64; 3]> = par
-                        .states
-                        .iter()
-                        .map(|pe| [pe.vapor().temperature.to_reduced(), pe.vapor().density.to_reduced(), pe.liquid().density.to_reduced()])
-                        .collect();
+                    let pv = diagram_table(&par);
                     states += pv.len();
+                    let par_idx: Vec<usize> = pv.iter().enumerate().map(|(i, x)| grid_index(x[0], &grid, tc, i + 1 == pv.len())).collect();
+                    cases_coq.push(format!("({}, [{}])", k, par_idx.iter().map(|i| i.to_string()).collect::<Vec<_>>().join("; ")));
+                    cases_json.push(json!({"chunksize": k, "threads": nt, "returned_grid_indices": par_idx}));
                     let mut w = 0.0f64;
                     if pv.len() != sv.len() {
                         w = f64::INFINITY;
@@ -813,25 +876,42 @@ fn par_pure_runs(full: bool, rng: &mut Rng) -> Value {
                             }
                         }
                     }
-                    let case = json!({"config": name, "t_min": tmin.to_reduced(), "npoints": np, "chunksize": k, "threads": nt,
+                    let case = json!({"config": name, "t_min": tmin.to_reduced(), "t_min_over_tc": frac, "npoints": np, "chunksize": k, "threads": nt,
                                       "rel_dev": if w.is_finite() { json!(w) } else { json!("inf") },
-                                      "n_seq": sv.len(), "n_par": pv.len()});
+                                      "grid_points_without_converged_equilibrium": nfail, "n_seq": sv.len(), "n_par": pv.len()});
                     if w > worst {
                         worst = w;
                         worst_case = json!({"case": case, "pure_T_rhoV_rhoL": sv, "par_pure_T_rhoV_rhoL": pv});
                     }
-                    // the smallest case beyond the tolerance of the check (npoints ascending, then threads, then chunk size)
+                    // the first case beyond the tolerance of the check
                     if w > PAR_TOL && first_failure.is_null() {
                         first_failure = json!({"case": case, "pure_T_rhoV_rhoL": sv, "par_pure_T_rhoV_rhoL": pv});
                     }
-                    if samples.len() < 4 && nt > 1 && k < np {
+                    if samples.len() < 6 && nt > 1 && k > 1 && k < np && (nfail > 0) == (samples.len() % 2 == 0) {
                         samples.push(case);
                     }
                 }
             }
+            // replay by the Coq model
+            let fname = format!("par_{}_{}.v", name, gi);
+            let mut v = String::from("From Coq Require Import List String.\nImport ListNotations.\nFrom FeosVerif Require Import ParPure.\nOpen Scope string_scope.\n");
+            let _ = writeln!(v, "(* {} : npoints {}, T_min = {} K = {:.4} T_c; grid points that converge without an initial guess *)", name, np, tmin.to_reduced(), frac);
+            let _ = writeln!(v, "Definition ok : list bool := [{}].", ok.iter().map(|b| b.to_string()).collect::<Vec<_>>().join("; "));
+            let _ = writeln!(v, "Definition observed_pure : list nat := [{}].", seq_idx.iter().map(|i| i.to_string()).collect::<Vec<_>>().join("; "));
+            let _ = writeln!(v, "Definition cases : list (nat * list nat) := [\n  {}].", cases_coq.join(";\n  "));
+            let _ = writeln!(v, "Eval vm_compute in (\"N\", List.length cases).");
+            let _ = writeln!(v, "Eval vm_compute in (\"PURE\", pure_model ok {CRIT}).");
+            let _ = writeln!(v, "Eval vm_compute in (\"PARBAD\", par_mismatches ok {CRIT} cases).");
+            let _ = writeln!(v, "Lemma model_and_implementation_agree : pure_model ok {CRIT} = observed_pure /\\ par_mismatches ok {CRIT} cases = [].\nProof. vm_compute. split; reflexivity. Qed.");
+            std::fs::write(format!("{out_dir}/{fname}"), v).unwrap();
+            files.push(json!({"file": fname, "kind": "par", "config": name, "t_min": tmin.to_reduced(), "t_min_over_tc": frac, "npoints": np,
+                              "grid": grid, "converges_without_guess": ok, "observed_pure": seq_idx, "cases": cases_json,
+                              "pure_T_rhoV_rhoL": sv}));
         }
     }
-    json!({"runs": runs, "states_compared": states, "worst_rel": if worst.is_finite() { json!(worst) } else { json!("inf") },
+    json!({"runs": runs, "states_compared": states, "grids": grids, "grids_with_failing_points": grids_with_failing_points,
+           "failing_grid_points": failing_points,
+           "worst_rel": if worst.is_finite() { json!(worst) } else { json!("inf") },
            "worst_case": worst_case, "first_failure": first_failure, "errors": failures, "samples": samples})
 }
 
@@ -976,6 +1056,6 @@ fn main() {
         }
     }
     let mut rng = Rng(cli.seed ^ 0x9A7);
-    let pp = if cli.opt("--no-par").is_some() { json!(null) } else { par_pure_runs(full, &mut rng) };
+    let pp = if cli.opt("--no-par").is_some() { json!(null) } else { par_pure_runs(full, &mut rng, &cli.out, &mut files) };
     cli.write_impl(&json!({"property": "C11", "tier": cli.tier, "seed": cli.seed, "configs": cfgs, "files": files, "par_pure": pp}));
 }
